@@ -47,11 +47,11 @@ PROPS = {
     },
     "C06": {
         "lean": "CedarProps.C06",
-        "engines": ["resume"],
-        "oracle_engine": {"resume": "sc"},
+        "engines": ["resume", "clientcache"],
+        "oracle_engine": {"resume": "sc", "clientcache": "sc"},
         "trusted": [SYMBOLIC_CRYPTO, "time is a parameter of the model (virtual time in the engine: entries re-stored with a past expiry)"],
         "technique": "Lean 4 theorems over the cache-as-finite-map and the server resumption machine (+ replay rejection from the symbolic AAD binding) + correspondence on a real server cache with scripted requests and byte-for-byte replays",
-        "level_text": "required_auth_not_resumed, resume_needs_key (a successful resumption found a live, keyed entry; the stream is switched to that key; identity/authentication are the entry's), dead_not_resumed, invalidated_is_dead, never_stored_is_dead, other_ops_do_not_revive, expired_lookup_removes, replay_rejected + digests_differ (a frame recorded on another connection does not authenticate once request/reply carry fresh values): kernel-checked. Tied to the code by the resume engine: histories over establish/expire/renew/invalidate/gc with scripted requests (right/wrong/no key, unknown id, one character off, with/without reply, other address) and replays of both directions of a recorded resumed connection (whole/truncated).",
+        "level_text": "required_auth_not_resumed, resume_needs_key (a successful resumption found a live, keyed entry; the stream is switched to that key; identity/authentication are the entry's), dead_not_resumed, invalidated_is_dead, never_stored_is_dead, other_ops_do_not_revive, expired_lookup_removes, client_explicit_needs_key (a client handshake naming a cached session by id resumes only a keyed AES-GCM entry — did not hold of the code as found, F-C06-client-explicit-keyless), replay_rejected + digests_differ (a frame recorded on another connection does not authenticate once request/reply carry fresh values): kernel-checked. Tied to the code by the resume engine: histories over establish/expire/renew/invalidate/gc with scripted requests (right/wrong/no key, unknown id, one character off, with/without reply, other address) and replays of both directions of a recorded resumed connection (whole/truncated).",
         "level_note": "Guessability of session identifiers is noted, not proved. Replay protection holds for peers that send the fresh ResumeNonce (cedar both sides after the fix); a legacy peer that requests no reply gets none, so the server contributes no fresh value and the recorded client->server bytes of such a connection re-authenticate on a fresh server connection while the session lives: driven by the engine (scripted key-holding requester with ResumeResponse=false, its byte stream replayed) and recorded as known finding F-C06-noreply-replay (key C06:replay-c2s-noreply); proved in the model as noreply_replay_fails (witness) with noreply_digests_repeat (the freshness hypothesis of replay_rejected is what fails) next to reply_replay_rejected (the part that holds).",
         "assumptions": ["a receive error is terminal"],
     },
